@@ -53,6 +53,21 @@ INDEX_EVENTS_TABLE_ENDTIME = """
 """
 
 
+_EPOCH = datetime(1970, 1, 1, tzinfo=timezone.utc)
+_MICROSECOND = timedelta(microseconds=1)
+
+
+def _to_us(dt: datetime) -> int:
+    """Exact number of microseconds since the epoch (no float rounding)"""
+    return (dt - _EPOCH) // _MICROSECOND
+
+
+def _event_to_us(event: Event):
+    starttime = _to_us(event.timestamp)
+    endtime = starttime + event.duration // _MICROSECOND
+    return starttime, endtime
+
+
 def _rows_to_events(rows: Iterable) -> List[Event]:
     events = []
     for row in rows:
@@ -236,8 +251,7 @@ class SqliteStorage(AbstractStorage):
 
     def insert_one(self, bucket_id: str, event: Event) -> Event:
         c = self.conn.cursor()
-        starttime = event.timestamp.timestamp() * 1000000
-        endtime = starttime + (event.duration.total_seconds() * 1000000)
+        starttime, endtime = _event_to_us(event)
         datastr = json.dumps(event.data)
         c.execute(
             "INSERT INTO events(bucketrow, starttime, endtime, datastr) "
@@ -263,8 +277,7 @@ class SqliteStorage(AbstractStorage):
         events_insert = [e for e in events if e.id is None]
         event_rows = []
         for event in events_insert:
-            starttime = event.timestamp.timestamp() * 1000000
-            endtime = starttime + (event.duration.total_seconds() * 1000000)
+            starttime, endtime = _event_to_us(event)
             datastr = json.dumps(event.data)
             event_rows.append((bucket_id, starttime, endtime, datastr))
         query = (
@@ -275,8 +288,7 @@ class SqliteStorage(AbstractStorage):
         self.conditional_commit(len(event_rows))
 
     def replace_last(self, bucket_id, event):
-        starttime = event.timestamp.timestamp() * 1000000
-        endtime = starttime + (event.duration.total_seconds() * 1000000)
+        starttime, endtime = _event_to_us(event)
         datastr = json.dumps(event.data)
         query = """UPDATE events
                    SET starttime = ?, endtime = ?, datastr = ?
@@ -297,8 +309,7 @@ class SqliteStorage(AbstractStorage):
         return cursor.rowcount == 1
 
     def replace(self, bucket_id, event_id, event) -> bool:
-        starttime = event.timestamp.timestamp() * 1000000
-        endtime = starttime + (event.duration.total_seconds() * 1000000)
+        starttime, endtime = _event_to_us(event)
         datastr = json.dumps(event.data)
         query = """UPDATE events
                      SET starttime = ?,
@@ -342,8 +353,8 @@ class SqliteStorage(AbstractStorage):
             limit = -1
         self.commit()
         c = self.conn.cursor()
-        starttime_i = starttime.timestamp() * 1000000 if starttime else 0
-        endtime_i = endtime.timestamp() * 1000000 if endtime else MAX_TIMESTAMP
+        starttime_i = _to_us(starttime) if starttime else 0
+        endtime_i = _to_us(endtime) if endtime else MAX_TIMESTAMP
         query = """
             SELECT id, starttime, endtime, datastr
             FROM events
@@ -363,8 +374,8 @@ class SqliteStorage(AbstractStorage):
     ):
         self.commit()
         c = self.conn.cursor()
-        starttime_i = starttime.timestamp() * 1000000 if starttime else 0
-        endtime_i = endtime.timestamp() * 1000000 if endtime else MAX_TIMESTAMP
+        starttime_i = _to_us(starttime) if starttime else 0
+        endtime_i = _to_us(endtime) if endtime else MAX_TIMESTAMP
         query = (
             "SELECT count(*) "
             + "FROM events "
